@@ -85,6 +85,16 @@ pub fn serialize(contents: &IndexMap<String, Vec<u8>>) -> Result<Vec<u8>> {
         next_file_address = header_length + raw_text.len() + raw_files.len();
     }
 
+    // The header stores the file count in 16 bits and every address and size in 32 bits.
+    let image_size = header_length + raw_text.len() + raw_files.len();
+    if contents.len() > u16::MAX as usize || image_size > u32::MAX as usize {
+        return Err(crate::ArchiveError::OtherError(format!(
+            "A pack of {} files and {} bytes cannot be stored: the format uses a 16-bit count and 32-bit sizes.",
+            contents.len(),
+            image_size
+        )));
+    }
+
     // Assemble the file.
     let mut archive: Vec<u8> = Vec::new();
     archive.extend(MAGIC.to_be_bytes().iter());
